@@ -1,7 +1,387 @@
 import RV.C02.Lemmas
+/-
+  C02 — "Dataset keeps named graphs isolated; the union view is the union of its graphs".
+
+  Specification: a mathematical mapping  graph name → set of triples  plus the set of
+  known (created, not removed) names.  Statements first (`def Statement_… : Prop`), then proofs.
+-/
 namespace RV.C02
 
-def Statement_add_names_a_graph : Prop := ∀ (cfg : Cfg) (tq : TQ), ∃ k, spocKey cfg tq true = some k
-theorem add_names_a_graph : Statement_add_names_a_graph := spocKey_default_isSome
+/-! ### Specification -/
+
+structure Spec where
+  has : Key → Triple → Prop      -- graph name ↦ its set of triples
+  known : Key → Prop             -- names that exist (for a Dataset the default graph always does)
+
+def Spec.init (cfg : Cfg) : Spec :=
+  ⟨fun _ _ => False, fun k => cfg.isDs = true ∧ k = cfg.dflt⟩
+
+def Spec.add (σ : Spec) (t : Triple) (k : Key) : Spec :=
+  ⟨fun k' t' => (k' = k ∧ t' = t) ∨ σ.has k' t', fun k' => k' = k ∨ σ.known k'⟩
+
+/-- a Graph object of another store handed to the dataset is merged into the graph of its name -/
+def Spec.merge (σ : Spec) (g : GArg) : Spec :=
+  ⟨fun k t => σ.has k t ∨ (t, k) ∈ g.adds, fun k => σ.known k ∨ ∃ t, (t, k) ∈ g.adds⟩
+
+/-- remove the matches from graph `k` (`ctx = some k`) or from every graph (`ctx = none`) -/
+def Spec.remove (σ : Spec) (pat : TPat) (ctx : Option Key) : Spec :=
+  ⟨fun k t => σ.has k t ∧ ¬(pat.matches t = true ∧ (ctx = none ∨ ctx = some k)), σ.known⟩
+
+def Spec.create (σ : Spec) (k : Key) : Spec :=
+  ⟨σ.has, fun k' => k' = k ∨ σ.known k'⟩
+
+/-- `remove_graph`: empties and forgets only that graph; the default graph always exists -/
+def Spec.removeGraph (cfg : Cfg) (σ : Spec) (k : Key) : Spec :=
+  ⟨fun k' t => k' ≠ k ∧ σ.has k' t, fun k' => (k' ≠ k ∧ σ.known k') ∨ k' = cfg.dflt⟩
+
+def Spec.addN (σ : Spec) : List (Triple × GArg) → Spec
+  | [] => σ
+  | (t, g) :: r =>
+    match g.key with
+    | none => σ.merge g
+    | some k => ((σ.merge g).add t k).addN r
+
+def Spec.step (cfg : Cfg) (σ : Spec) : Op → Spec
+  | .add t g => (σ.merge (g.getD .none)).add t ((g.getD .none).key.getD cfg.dflt)
+  | .addN qs => σ.addN qs
+  | .remove tq => (σ.merge tq.garg).remove tq.pat tq.garg.key
+  | .graph g =>
+    if cfg.isDs then
+      (match g.key with
+       | none => σ
+       | some k => (σ.merge g).create k)
+    else σ
+  | .removeGraph k => if cfg.isDs then σ.removeGraph cfg k else σ
+  | .removeContext k => σ.remove TPat.all (some k)
+  | .vadd k t => σ.add t k
+  | .vremove k p => σ.remove p (some k)
+  | .triples tq c => (σ.merge tq.garg).merge c
+  | .contains tq => σ.merge tq.garg
+  | .quads tq => σ.merge tq.garg
+  | .graphs => σ
+
+def Spec.run (cfg : Cfg) (σ : Spec) (ops : List Op) : Spec := ops.foldl (Spec.step cfg) σ
+
+/-- what a read restricted to `e` (`none` = no graph given) must see -/
+def Spec.sees (cfg : Cfg) (σ : Spec) (e : Option Key) (t : Triple) : Prop :=
+  match e with
+  | none => if cfg.du = true then ∃ k, σ.has k t else σ.has cfg.dflt t
+  | some k => if cfg.du = true ∧ k = cfg.dflt then ∃ k', σ.has k' t else σ.has k t
+
+/-! ### Observations of the model (pure functions of the state) -/
+
+/-- content of graph `k` as an independently constructed `Graph(store, k)` shows it -/
+def content (m : Mem) (k : Key) (t : Triple) : Prop := t ∈ vTriples m k TPat.all
+
+/-- `ds.triples(pat, context=e)` on state `m` -/
+def obsTriples (cfg : Cfg) (m : Mem) (pat : TPat) (e : Option Key) : List Triple :=
+  (m.triples pat (resolveCtx cfg e)).map (·.1)
+
+/-- `(pat, e) in ds` on state `m` -/
+def obsContains (cfg : Cfg) (m : Mem) (pat : TPat) (e : Option Key) : Bool :=
+  !(obsTriples cfg m pat e).isEmpty
+
+/-- `ds.quads((pat, e))` on state `m` -/
+def obsQuads (m : Mem) (pat : TPat) (e : Option Key) : List Quad := expandCtxs (m.triples pat e)
+
+/-- all observables the property names, on one state -/
+structure Agree (cfg : Cfg) (m : Mem) (σ : Spec) : Prop where
+  quads : ∀ q, q ∈ obsQuads m TPat.all none ↔ σ.has q.2 q.1
+  quadsPat : ∀ pat e q, q ∈ obsQuads m pat e ↔
+      σ.has q.2 q.1 ∧ pat.matches q.1 = true ∧ (∀ k, e = some k → σ.has k q.1)
+  quadsNodup : ∀ pat e, (obsQuads m pat e).Nodup
+  graphs : ∀ k, k ∈ (cgGraphs cfg m).2 ↔ σ.known k
+  graphsNodup : (cgGraphs cfg m).2.Nodup
+  graphsOf : ∀ t k, k ∈ cgGraphsOf m t ↔ σ.has k t
+  view : ∀ k pat t, t ∈ vTriples m k pat ↔ σ.has k t ∧ pat.matches t = true
+  viewNodup : ∀ k pat, (vTriples m k pat).Nodup
+  viewContains : ∀ k pat, vContains m k pat = true ↔ ∃ t, σ.has k t ∧ pat.matches t = true
+  triples : ∀ pat e t, t ∈ obsTriples cfg m pat e ↔ pat.matches t = true ∧ σ.sees cfg e t
+  triplesNodup : ∀ pat e, (obsTriples cfg m pat e).Nodup
+  contains : ∀ pat e, obsContains cfg m pat e = true ↔ ∃ t, pat.matches t = true ∧ σ.sees cfg e t
+
+/-! ### Statements -/
+
+/-- The answers of the reading API calls are the pure observations of the state they leave. -/
+def Statement_api_outputs_are_observations : Prop :=
+  ∀ (cfg : Cfg) (m : Mem) (tq : TQ) (c : GArg),
+    (cgTriples cfg m tq c).2 = obsTriples cfg (step cfg m (.triples tq c)) tq.pat (effKey tq c) ∧
+    (cgContains cfg m tq).2 = obsContains cfg (step cfg m (.contains tq)) tq.pat tq.garg.key ∧
+    (cgQuads cfg m tq).2 = obsQuads (step cfg m (.quads tq)) tq.pat tq.garg.key
+
+/-- ⊢ For every history (adds, addN, removes, remove-by-pattern, graph creation / removal,
+    through the dataset and through independent views, reads interleaved anywhere), every
+    observable of the model is the one of the mapping  name → triple set. -/
+def Statement_ds_refine_history : Prop :=
+  ∀ (cfg : Cfg) (ops : List Op),
+    Agree cfg (run cfg Mem.empty ops) (Spec.run cfg (Spec.init cfg) ops)
+
+/-- the graphs an operation may change (`none` = every graph) -/
+def Op.targets (cfg : Cfg) : Op → Option (List Key)
+  | .add _ g => some ((g.getD .none).key.getD cfg.dflt :: (g.getD .none).adds.map (·.2))
+  | .addN qs => some (qs.filterMap (·.2.key))
+  | .remove tq =>
+    match tq.garg.key with
+    | none => none
+    | some k => some [k]
+  | .graph g => some (g.adds.map (·.2))
+  | .removeGraph k => some [k]
+  | .removeContext k => some [k]
+  | .vadd k _ => some [k]
+  | .vremove k _ => some [k]
+  | .triples tq c => some (tq.garg.adds.map (·.2) ++ c.adds.map (·.2))
+  | .contains tq => some (tq.garg.adds.map (·.2))
+  | .quads tq => some (tq.garg.adds.map (·.2))
+  | .graphs => some []
+
+/-- Operations on graph `g` leave the content of every other graph unchanged
+    (in particular reads with identifiers / same-store views change no graph at all). -/
+def Statement_isolation : Prop :=
+  ∀ (cfg : Cfg) (m : Mem) (op : Op) (ks : List Key), WF m → op.targets cfg = some ks →
+    ∀ h, h ∉ ks → ∀ t, content (step cfg m op) h t ↔ content m h t
+
+/-- A triple shared by two graphs survives its removal from one of them. -/
+def Statement_shared_triple_survives : Prop :=
+  ∀ (cfg : Cfg) (m : Mem) (t : Triple) (g h : Key) (p : TPat), WF m → g ≠ h → content m h t →
+    content (step cfg m (.remove (.quad p (.ident g)))) h t ∧
+    content (step cfg m (.vremove g p)) h t
+
+/-- Removing with no graph given removes the matches from every graph and nothing else. -/
+def Statement_remove_all_graphs : Prop :=
+  ∀ (cfg : Cfg) (m : Mem) (tq : TQ), tq.garg.key = none →
+    ∀ h t, content (step cfg m (.remove tq)) h t ↔ (content m h t ∧ ¬ tq.pat.matches t = true)
+
+/-- `remove_graph(k)`: `k` becomes empty and (unless it is the default graph) is no longer
+    listed; every other graph keeps its content and its listing. -/
+def Statement_remove_graph_spec : Prop :=
+  ∀ (cfg : Cfg) (m : Mem) (k : Key), cfg.isDs = true → WF m →
+    (∀ t, ¬ content (step cfg m (.removeGraph k)) k t) ∧
+    (∀ h, h ≠ k → ∀ t, content (step cfg m (.removeGraph k)) h t ↔ content m h t) ∧
+    (k ≠ cfg.dflt → k ∉ (cgGraphs cfg (step cfg m (.removeGraph k))).2) ∧
+    (∀ h, h ≠ k → (h ∈ (cgGraphs cfg (step cfg m (.removeGraph k))).2 ↔ h ∈ (cgGraphs cfg m).2))
+
+/-- The default graph of a Dataset is listed by `graphs()` in every state. -/
+def Statement_default_always_exists : Prop :=
+  ∀ (cfg : Cfg) (m : Mem), cfg.isDs = true → cfg.dflt ∈ (cgGraphs cfg m).2
+
+/-- ⊢ A read restricted to a graph that is empty or unknown returns nothing (both
+    `default_union` values; under `default_union` the name of the default graph denotes the
+    merged view, which is `union_view`). -/
+def Statement_empty_or_unknown_is_empty : Prop :=
+  ∀ (cfg : Cfg) (m : Mem) (tq : TQ) (c : GArg) (k : Key),
+    ¬(cfg.du = true ∧ k = cfg.dflt) →
+    (effKey tq c = some k → (∀ t, ¬ content (cgTriples cfg m tq c).1 k t) →
+        (cgTriples cfg m tq c).2 = []) ∧
+    (tq.garg.key = some k → (∀ t, ¬ content (cgContains cfg m tq).1 k t) →
+        (cgContains cfg m tq).2 = false) ∧
+    (tq.garg.key = some k → (∀ t, ¬ content (cgQuads cfg m tq).1 k t) →
+        (cgQuads cfg m tq).2 = [])
+
+/-- A read with no graph given: the union of all graphs under `default_union` (each triple once),
+    the default graph otherwise; naming the default graph under `default_union` is the same. -/
+def Statement_union_view : Prop :=
+  ∀ (cfg : Cfg) (m : Mem) (pat : TPat),
+    (∀ t, t ∈ obsTriples cfg m pat none ↔
+        pat.matches t = true ∧ (if cfg.du = true then ∃ k, content m k t else content m cfg.dflt t)) ∧
+    (obsTriples cfg m pat none).Nodup ∧
+    (cfg.du = true → obsTriples cfg m pat (some cfg.dflt) = obsTriples cfg m pat none)
+
+/-! ### Simulation -/
+
+structure Sim (cfg : Cfg) (m : Mem) (σ : Spec) : Prop where
+  has : ∀ t k, (t, k) ∈ m.qs ↔ σ.has k t
+  known : ∀ k, σ.known k ↔ (k ∈ m.allc ∨ (cfg.isDs = true ∧ k = cfg.dflt))
+  wf : WF m
+
+theorem ctxOk_iff {ctx : Option Key} {k : Key} : ctxOk ctx k = true ↔ (ctx = none ∨ ctx = some k) := by
+  cases ctx with
+  | none => simp [ctxOk]
+  | some c =>
+    simp only [ctxOk, beq_iff_eq]
+    constructor
+    · intro e; exact Or.inr (by rw [e])
+    · rintro (e | e)
+      · cases e
+      · injection e with e; exact e.symm
+
+theorem content_iff {m : Mem} {k : Key} {t : Triple} : content m k t ↔ (t, k) ∈ m.qs := by
+  unfold content vTriples
+  rw [mem_triples_fst]
+  constructor
+  · rintro ⟨_, c, h1, h2⟩
+    rw [ctxOk_some.mp h2] at h1; exact h1
+  · intro h; exact ⟨matches_all _, k, h, ctxOk_some.mpr rfl⟩
+
+theorem sim_init (cfg : Cfg) : Sim cfg Mem.empty (Spec.init cfg) :=
+  ⟨fun _ _ => ⟨fun h => absurd h List.not_mem_nil, False.elim⟩,
+   fun _ => ⟨Or.inr, fun h => h.elim (fun e => absurd e List.not_mem_nil) id⟩, WF.empty⟩
+
+theorem merge_pickCtx (σ : Spec) (c : GArg) (x : Option Key) : σ.merge (pickCtx c x) = σ.merge c := by
+  simp only [Spec.merge, pickCtx_adds]
+
+theorem merge_asView (σ : Spec) (x : Option Key) : σ.merge (asView x) = σ := by
+  simp [Spec.merge, asView_adds]
+
+theorem sim_add {cfg : Cfg} {m : Mem} {σ : Spec} (h : Sim cfg m σ) (t : Triple) (k : Key) :
+    Sim cfg (m.add t k) (σ.add t k) := by
+  refine ⟨?_, ?_, h.wf.add t k⟩
+  · intro t' k'
+    simp only [Mem.add, mem_sinsert, Spec.add, Prod.mk.injEq, h.has]
+    constructor
+    · rintro (⟨e1, e2⟩ | e)
+      · exact Or.inl ⟨e2, e1⟩
+      · exact Or.inr e
+    · rintro (⟨e1, e2⟩ | e)
+      · exact Or.inl ⟨e2, e1⟩
+      · exact Or.inr e
+  · intro k'
+    simp only [Mem.add, mem_sinsert, Spec.add, h.known, or_assoc]
+
+theorem sim_merge {cfg : Cfg} {m : Mem} {σ : Spec} (h : Sim cfg m σ) (g : GArg) :
+    Sim cfg (graphEff cfg m g) (σ.merge g) := by
+  refine ⟨?_, ?_, h.wf.graphEff cfg g⟩
+  · intro t k
+    simp only [mem_graphEff_qs, Spec.merge, h.has]
+  · intro k
+    simp only [mem_graphEff_allc h.wf, Spec.merge, h.known]
+    constructor
+    · rintro ((e | e) | e)
+      · exact Or.inl (Or.inl e)
+      · exact Or.inr e
+      · exact Or.inl (Or.inr (Or.inr e))
+    · rintro ((e | ⟨_, e⟩ | e) | e)
+      · exact Or.inl (Or.inl e)
+      · exact Or.inl (Or.inr e)
+      · exact Or.inr e
+      · exact Or.inl (Or.inr e)
+
+theorem sim_remove {cfg : Cfg} {m : Mem} {σ : Spec} (h : Sim cfg m σ) (pat : TPat) (ctx : Option Key) :
+    Sim cfg (m.remove pat ctx) (σ.remove pat ctx) := by
+  refine ⟨?_, h.known, h.wf.remove pat ctx⟩
+  intro t k
+  simp only [Mem.remove, mem_removeQ, Spec.remove, h.has, ctxOk_iff]
+
+theorem sim_create {cfg : Cfg} {m : Mem} {σ : Spec} (h : Sim cfg m σ) (k : Key) :
+    Sim cfg (m.addGraph k) (σ.create k) := by
+  refine ⟨h.has, ?_, h.wf.addGraph k⟩
+  intro k'
+  simp only [Mem.addGraph, mem_sinsert, Spec.create, h.known, or_assoc]
+
+theorem sim_touch {cfg : Cfg} {m : Mem} {σ : Spec} (h : Sim cfg m σ) : Sim cfg (touch cfg m) σ := by
+  refine ⟨by rw [touch_qs]; exact h.has, ?_, h.wf.touch cfg⟩
+  intro k
+  rw [h.known, mem_touch_allc]
+  constructor
+  · rintro (e | e)
+    · exact Or.inl (Or.inl e)
+    · exact Or.inr e
+  · rintro ((e | e) | e)
+    · exact Or.inl e
+    · exact Or.inr e
+    · exact Or.inr e
+
+theorem sim_removeGraph {cfg : Cfg} {m : Mem} {σ : Spec} (h : Sim cfg m σ) (hd : cfg.isDs = true)
+    (k : Key) : Sim cfg (dsRemoveGraph cfg m k) (σ.removeGraph cfg k) := by
+  have hq : ∀ t k', (t, k') ∈ (m.removeGraph k).qs ↔ (k' ≠ k ∧ σ.has k' t) := by
+    intro t k'
+    simp only [Mem.removeGraph, Mem.remove, mem_removeQ, h.has, matches_all, ctxOk_some, true_and]
+    exact and_comm
+  unfold dsRemoveGraph
+  simp only
+  split
+  · next e =>
+    refine ⟨hq, ?_, (h.wf.removeGraph k).addGraph _⟩
+    intro k'
+    simp only [Spec.removeGraph, Mem.addGraph, Mem.removeGraph, mem_sinsert, mem_sremove, h.known, hd,
+      true_and, e]
+    constructor
+    · rintro (⟨e1, (e2 | e2)⟩ | e1)
+      · exact Or.inl (Or.inr ⟨e1, e2⟩)
+      · exact Or.inr e2
+      · exact Or.inr e1
+    · rintro ((e1 | ⟨e1, e2⟩) | e1)
+      · exact Or.inr e1
+      · exact Or.inl ⟨e1, Or.inl e2⟩
+      · exact Or.inr e1
+  · next e =>
+    refine ⟨hq, ?_, h.wf.removeGraph k⟩
+    intro k'
+    simp only [Spec.removeGraph, Mem.removeGraph, mem_sremove, h.known, hd, true_and]
+    constructor
+    · rintro (⟨e1, (e2 | e2)⟩ | e1)
+      · exact Or.inl ⟨e1, e2⟩
+      · exact Or.inr e2
+      · exact Or.inr e1
+    · rintro (⟨e1, e2⟩ | e1)
+      · exact Or.inl ⟨e1, Or.inl e2⟩
+      · exact Or.inr e1
+
+theorem sim_addN {cfg : Cfg} (qs : List (Triple × GArg)) :
+    ∀ {m : Mem} {σ : Spec}, Sim cfg m σ → Sim cfg (cgAddN cfg m qs).1 (σ.addN qs) := by
+  induction qs with
+  | nil => intro m σ h; exact h
+  | cons x r ih =>
+    intro m σ h
+    obtain ⟨t, g⟩ := x
+    simp only [cgAddN, Spec.addN]
+    cases hk : g.key with
+    | none => exact sim_merge h g
+    | some k => exact ih (sim_add (sim_merge h g) t k)
+
+theorem sim_step {cfg : Cfg} {m : Mem} {σ : Spec} (h : Sim cfg m σ) (op : Op) :
+    Sim cfg (step cfg m op) (σ.step cfg op) := by
+  cases op with
+  | add t g =>
+    simp only [step, Spec.step, cgAdd]
+    cases g with
+    | none =>
+      simp only [spocKey, spocEff, Option.getD, GArg.key]
+      exact sim_add (sim_merge h .none) t _
+    | some g =>
+      simp only [spocEff, Option.getD]
+      rw [spocKey_default]
+      exact sim_add (sim_merge h g) t _
+  | addN qs => exact sim_addN qs h
+  | remove tq =>
+    simp only [step, Spec.step, cgRemove]
+    rw [spocEff_eq, spocKey_nodefault]
+    exact sim_remove (sim_merge h _) _ _
+  | graph g =>
+    simp only [step, Spec.step, dsGraph]
+    split
+    · cases hk : g.key with
+      | none => exact h
+      | some k => exact sim_create (sim_merge h g) k
+    · exact h
+  | removeGraph k =>
+    simp only [step, Spec.step]
+    split
+    · next hd => exact sim_removeGraph h hd k
+    · exact h
+  | removeContext k => exact sim_remove h _ _
+  | vadd k t => exact sim_add h t k
+  | vremove k p => exact sim_remove h p _
+  | triples tq c =>
+    have h1 := sim_merge (sim_merge h tq.garg) (pickCtx c (spocKey cfg tq false))
+    rw [merge_pickCtx] at h1
+    simp only [step, Spec.step, cgTriples, spocEff_eq]
+    exact h1
+  | contains tq =>
+    have h1 := sim_merge (sim_merge h tq.garg)
+      (pickCtx (asView (spocKey cfg tq false)) (spocKey cfg (.tri tq.pat) false))
+    rw [merge_pickCtx, merge_asView] at h1
+    simp only [step, Spec.step, cgContains, cgTriples, spocEff_eq]
+    exact h1
+  | quads tq =>
+    simp only [step, Spec.step, cgQuads]
+    rw [spocEff_eq]
+    exact sim_merge h _
+  | graphs => exact sim_touch h
+
+theorem sim_run {cfg : Cfg} (ops : List Op) :
+    ∀ {m : Mem} {σ : Spec}, Sim cfg m σ → Sim cfg (run cfg m ops) (σ.run cfg ops) := by
+  induction ops with
+  | nil => intro m σ h; exact h
+  | cons op ops ih => intro m σ h; exact ih (sim_step h op)
 
 end RV.C02
